@@ -47,4 +47,12 @@ PROPS = {
             R("h23", "c20", "TestC20_Helpers", (20000, 2), (1000000, 8, 3000)),
         ],
     },
+    "C11": {
+        "level": "exploration",
+        "units": [
+            R("h23", "c11", "TestC11_RoundTrip", (20000, 4), (1000000, 16, 3000)),
+            R("h23", "c11", "TestC11_Decode", (100000, 8), (2000000, 16, 3000)),
+        ],
+        "fuzz": [{"mod": "h23", "pkg": "c11", "target": "FuzzC11_Unmarshal", "secs": 300}],
+    },
 }
